@@ -148,6 +148,10 @@ pub fn fill(seed: u32, len: usize) -> Vec<u8> {
                 out[15] = (len - 16) as u8;
             }
         }
+        SEED_TYPED => {
+            let pat = b"key=value;id=42;name=proxy-1\0";
+            out.iter_mut().enumerate().for_each(|(i, b)| *b = pat[i % pat.len()]);
+        }
         SEED_LEN24 => {
             // the value begins with a big-endian 24-bit count: the number of bytes in the value plus one (a length prefix of
             // the sender's own that reaches one byte past the value)
@@ -217,8 +221,12 @@ pub const SEED_LEN24: u32 = 0xffff_fff3;
 
 /// A fill seed from the tape: mostly random content, but one value in four is one of the content classes
 /// (all zero / all 0xFF / ASCII letters / signature bytes) that pure random bytes never produce.
+/// Content class: what a TLV of the given type carries in practice (see bld::tlv_value); as plain filler: key=value text.
+pub const SEED_TYPED: u32 = 0xffff_fff1;
+
 pub fn gen_seed(t: &mut Tape) -> u32 {
-    match t.weighted(&[24, 4, 2, 2, 2, 1, 1, 1, 1, 1, 1, 1]) {
+    match t.weighted(&[24, 4, 2, 2, 2, 1, 1, 1, 1, 1, 1, 1, 2]) {
+        12 => SEED_TYPED,
         8 => SEED_COUNTED,
         9 => SEED_FQDN,
         10 => SEED_V2HEADER,
